@@ -110,8 +110,10 @@ class QueueModel:
         graw, gfirst, glast, gpraw = got
         if (graw ^ raw) & mask:
             return mon, ("data.payload", f"payload exp {raw:#x} (mask {mask:#x}) got {graw:#x}")
-        if first is not None and (gfirst, glast) != (first, last):
-            return mon, ("data.firstlast", f"first/last exp {(first, last)} got {(gfirst, glast)}")
+        if first is not None and gfirst != first:
+            return mon, ("data.firstlast", f"first exp {first} got {gfirst} (last exp {last} got {glast})")
+        if last is not None and glast != last:
+            return mon, ("data.firstlast", f"last exp {last} got {glast}")
         if praw is not None and gpraw != praw:
             return mon, ("data.param", f"param exp {praw:#x} got {gpraw:#x}")
         return (acc, q[1:]), None
@@ -130,7 +132,7 @@ class Identity(QueueModel):
         mask = tok[4] if len(tok) > 4 else self.mask
         if self.mapraw:
             raw = self.mapraw(raw)
-        return acc, [(raw, mask, first if self.use_last else None, last, praw)]
+        return acc, [(raw, mask, first if self.use_last else None, last if self.use_last else None, praw)]
 
 
 class Up(QueueModel):
@@ -245,7 +247,7 @@ class StreamHarness(Harness):
 
     def __init__(self, name, factory, model_factory, M=4, maxpkt=3, nparam=2, mode="ids", idbits=None,
                  ctrl=None, idle_garbage=True, cap=None, sink="sink", source="source", check_stability=True,
-                 alphabet=None, coop_ctrl=None, expect_full=True):
+                 alphabet=None, coop_ctrl=None, expect_full=True, minpkt=1, mid_pause=True):
         self.name = name
         self.factory = factory
         self.model_factory = model_factory
@@ -257,6 +259,7 @@ class StreamHarness(Harness):
         self.alphabet = alphabet
         self.coop_ctrl = coop_ctrl           # ctrl tuple values considered cooperative (None: all)
         self.idbits = idbits
+        self.minpkt, self.mid_pause = minpkt, mid_pause
         if cap:
             self.cap = cap
         self.hs = set()
@@ -299,10 +302,18 @@ class StreamHarness(Harness):
         nid, pos, par, hold, stall, cprev, mon = env
         pch = []
         if hold is None:
-            pch.append(("idle", 0))
-            if self.idle_garbage:
-                pch.append(("idle", 1))
-            lasts = ((0, 1) if pos + 1 < self.maxpkt else (1,)) if self.use_last else (0,)
+            if self.mid_pause or pos == 0:
+                pch.append(("idle", 0))
+                if self.idle_garbage:
+                    pch.append(("idle", 1))
+            if not self.use_last:
+                lasts = (0,)
+            elif pos + 1 < self.minpkt:
+                lasts = (0,)
+            elif pos + 1 < self.maxpkt:
+                lasts = (0, 1)
+            else:
+                lasts = (1,)
             ids = (nid,) if self.mode == "ids" else range(len(self.alphabet))
             for i in ids:
                 for last in lasts:
@@ -394,3 +405,177 @@ class StreamHarness(Harness):
         if len(self.hs) < 4:
             return f"only {len(self.hs)} handshake patterns observed"
         return None
+
+
+# ---------------------------------------------------------------------------------------------------
+# several producers / several consumers (Multiplexer, Demultiplexer, Gate, packet.Arbiter, packet.Dispatcher)
+# ---------------------------------------------------------------------------------------------------
+import itertools
+
+WAITBIT = 256      # WAITBIT << i : producer i is offering in this step;  SERVED << i : it completed a handshake
+SERVEDBIT = 4096
+
+
+class MultiStreamHarness(Harness):
+    """env = (producers ((nid, pos, hold), ...), stall snapshots per source, previous ctrl, oracle state).
+    Token payload = (producer index << idbits) | sequence id; no params.  `oracle` is an object with
+    init() and cycle(mon, offers, in_hs, outs, out_hs, cc, H) -> (mon2, err)."""
+
+    def __init__(self, name, factory, sinks, sources, oracle, idbits=2, maxpkt=2, ctrl=None, coop_ctrl=None,
+                 idle_garbage=True, check_stability=True, cap=None, starvation=True, liveness=True):
+        self.name, self.factory = name, factory
+        self.sink_names, self.source_names = sinks, sources
+        self.oracle = oracle
+        self.idbits, self.M, self.maxpkt = idbits, 1 << idbits, maxpkt
+        self.ctrl_spec = ctrl or []
+        self.coop_ctrl = coop_ctrl
+        self.idle_garbage = idle_garbage
+        self.check_stability = check_stability
+        if cap:
+            self.cap = cap
+        self.hs = set()
+        q = [("live.deadlock", COOP, PROGRESS, (), "all parties cooperate forever, no handshake at all")]
+        if starvation:
+            for i in range(len(sinks)):
+                q.append((f"live.starve.m{i}", COOP | (WAITBIT << i), SERVEDBIT << i, (),
+                          f"producer {i} offers forever and is never served although everybody cooperates"))
+        self.live_queries = tuple(q) if liveness else ()
+
+    def build(self):
+        self.dut = self.factory()
+        return self.dut
+
+    def _get(self, path):
+        o = self.dut
+        for p in path.split("."):
+            o = getattr(o, p)
+        return o
+
+    def bind(self, D):
+        self.sinks = [Port(D, self._get(n)) for n in self.sink_names]
+        self.sources = [Port(D, self._get(n)) for n in self.source_names]
+        self.ctrl = [(D.i(self._get(path)), list(vals)) for path, vals in self.ctrl_spec]
+        self.ctrl_choices = [()]
+        for i, vals in self.ctrl:
+            self.ctrl_choices = [c + (x,) for c in self.ctrl_choices for x in vals]
+        self.ready_choices = list(itertools.product((0, 1), repeat=len(self.sources)))
+
+    def env_init(self):
+        return (tuple((0, 0, None) for _ in self.sinks), tuple(None for _ in self.sources), None, self.oracle.init())
+
+    def raw(self, i, nid):
+        return (i << self.idbits) | nid
+
+    def choices(self, env):
+        prods = env[0]
+        per = []
+        for i, (nid, pos, hold) in enumerate(prods):
+            if hold is not None:
+                per.append([("offer",) + hold])
+            else:
+                c = [("idle", 0)]
+                if self.idle_garbage:
+                    c.append(("idle", 1))
+                lasts = (0, 1) if pos + 1 < self.maxpkt else (1,)
+                c += [("offer", nid, l) for l in lasts]
+                per.append(c)
+        return [(pc, r, c) for pc in itertools.product(*per) for r in self.ready_choices for c in self.ctrl_choices]
+
+    def drive(self, v, env, ch):
+        pcs, rdys, cc = ch
+        for i, (P, pc) in enumerate(zip(self.sinks, pcs)):
+            if pc[0] == "idle":
+                P.drive_idle(v, pc[1])
+            else:
+                P.drive_token(v, self.raw(i, pc[1]), 1 if env[0][i][1] == 0 else 0, pc[2], 0)
+        for P, r in zip(self.sources, rdys):
+            v[P.ready] = r
+        for (i, vals), x in zip(self.ctrl, cc):
+            v[i] = x
+
+    def observe(self, v, env, ch):
+        pcs, rdys, cc = ch
+        prods, stalls, cprev, mon = env
+        offers, in_hs = [], []
+        for i, (P, pc) in enumerate(zip(self.sinks, pcs)):
+            if pc[0] == "offer":
+                offers.append((self.raw(i, pc[1]), 1 if prods[i][1] == 0 else 0, pc[2], 0))
+                in_hs.append(bool(v[P.ready]))
+            else:
+                offers.append(None)
+                in_hs.append(False)
+        outs, out_hs, stalls2 = [], [], []
+        err = None
+        for j, (P, r) in enumerate(zip(self.sources, rdys)):
+            ov = v[P.valid]
+            got = P.read(v)
+            outs.append((ov, got))
+            out_hs.append(bool(ov and r))
+            if self.check_stability and stalls[j] is not None and cprev == cc and err is None:
+                if not ov:
+                    err = ("stab.valid", f"source{j}.valid withdrawn before ready")
+                elif got != stalls[j]:
+                    err = ("stab.payload", f"source{j} changed while valid & ~ready: {stalls[j]} -> {got}")
+            stalls2.append(got if (ov and not r) else None)
+        self.hs.add((tuple(o is not None for o in offers), tuple(in_hs), tuple(o[0] for o in outs), tuple(rdys)))
+        if err is None:
+            mon, err = self.oracle.cycle(mon, offers, in_hs, outs, out_hs, cc, self)
+        if err is not None:
+            return env, err, 0
+        prods2 = []
+        coop = all(rdys) and (self.coop_ctrl is None or cc in self.coop_ctrl)
+        flags = 0
+        for i, ((nid, pos, hold), pc) in enumerate(zip(prods, pcs)):
+            if pc[0] == "idle":
+                prods2.append((nid, pos, None))
+                if pos > 0:
+                    coop = False          # a producer pausing inside a packet is not cooperating
+            elif in_hs[i]:
+                flags |= (WAITBIT << i) | (SERVEDBIT << i)
+                prods2.append(((nid + 1) % self.M, 0 if pc[2] else pos + 1, None))
+            else:
+                flags |= WAITBIT << i
+                prods2.append((nid, pos, pc[1:]))
+        if coop and any(o is not None for o in offers):
+            flags |= COOP
+        if any(in_hs) or any(out_hs):
+            flags |= PROGRESS
+        return (tuple(prods2), tuple(stalls2), cc, mon), None, flags
+
+    def cover_report(self):
+        return dict(handshake_patterns=len(self.hs))
+
+    def vacuity(self):
+        return None if len(self.hs) >= 4 else f"only {len(self.hs)} handshake patterns"
+
+
+class CombRouteOracle:
+    """Purely combinational routing elements: in every cycle the routed pair (sink i -> source j) is connected
+    (valid, payload, first, last forwarded; ready returned), every other sink sees `idle_ready`, every other source
+    shows valid = 0.  route(cc) -> (i, j) or None; exactly-once/in-order then follows from the producers' hold discipline."""
+    def __init__(self, route, idle_ready):
+        self.route, self.idle_ready = route, idle_ready
+    def init(self):
+        return ()
+    def cycle(self, mon, offers, in_hs, outs, out_hs, cc, H):
+        r = self.route(cc)
+        for j, (ov, got) in enumerate(outs):
+            if r is not None and r[1] == j:
+                tok = offers[r[0]]
+                if bool(ov) != (tok is not None):
+                    return mon, ("comb.valid", f"source{j}.valid={ov} but routed sink{r[0]} offers={tok is not None}")
+                if tok is not None and (got[0], got[1], got[2]) != (tok[0], tok[1], tok[2]):
+                    return mon, ("comb.payload", f"source{j} shows {got} for token {tok}")
+            elif ov:
+                return mon, ("comb.valid", f"unrouted source{j} shows valid")
+        for i, tok in enumerate(offers):
+            if tok is None:
+                continue
+            if r is not None and r[0] == i:
+                if in_hs[i] != out_hs[r[1]]:
+                    return mon, ("comb.ready", f"sink{i} handshake {in_hs[i]} but routed source handshake {out_hs[r[1]]}")
+            else:
+                exp = self.idle_ready(i, cc)
+                if exp is not None and in_hs[i] != bool(exp):
+                    return mon, ("comb.ready", f"unrouted sink{i} sees ready={in_hs[i]}, expected {exp}")
+        return mon, None
